@@ -15,3 +15,4 @@ import OapiVerif.Props.C19
 import OapiVerif.Props.C20
 import OapiVerif.Props.C18
 import OapiVerif.Props.C11
+import OapiVerif.Props.C10
